@@ -197,6 +197,26 @@ func (c *Ctx) ExplicitPanics(prop string) {
 				if what == "" {
 					continue
 				}
+				if what == "panic" {
+					// a panic on the failing side of a comma-ok type assertion stands for the implicit panic of the unchecked
+					// assertion `v.(T)` (not decided either way: see the trusted list)
+					target := ins
+					if x, _ := an.Cut(an.CutQuery{From: an.Entry(f), Target: func(i ssa.Instruction) bool { return i == target },
+						AcceptEdge: func(b *ssa.BasicBlock, i int, a *an.Atom) bool {
+							if a == nil || a.Op != "false" {
+								return false
+							}
+							ex, ok := a.LV.(*ssa.Extract)
+							if !ok || ex.Index != 1 {
+								return false
+							}
+							_, isTA := ex.Tuple.(*ssa.TypeAssert)
+							return isTA
+						}}); x == nil {
+						c.R.OK(rule, Fn(f)+":assertion", c.Pos(ins), "panic only on the failing side of a comma-ok type assertion (the explicit form of an unchecked assertion)")
+						continue
+					}
+				}
 				if why, ok := allowed[f.String()]; ok && what == "panic" {
 					found = append(found, Fn(f))
 					c.R.OK(rule, Fn(f), c.Pos(ins), "table entry: "+why)
